@@ -266,12 +266,41 @@ def int_floordiv(az, bz):
     # symbolic divisor: quotient-remainder variables
     if ctx.div_safety:
         safety('div', SBool(bz != 0))
+    c = _cancel(az, bz)
+    if c is not None:
+        return c
     q = z3.Int(ctx.fresh_name('q'))
     r = z3.Int(ctx.fresh_name('r'))
     ctx.add(az == q * bz + r)
     ctx.add(z3.Implies(bz > 0, z3.And(r >= 0, r < bz)))
     ctx.add(z3.Implies(bz < 0, z3.And(r <= 0, r > bz)))
     return q
+
+
+def _mul_factors(z):
+    z = z3.simplify(z)
+    if z3.is_app(z) and z.decl().kind() == z3.Z3_OP_MUL:
+        out = []
+        for c in z.children():
+            out += _mul_factors(c)
+        return out
+    return [z]
+
+
+def _cancel(az, bz):
+    """(x*b) // b = x for b != 0: syntactic cancellation of every factor of b in a"""
+    fa, fb = _mul_factors(az), _mul_factors(bz)
+    rest = list(fa)
+    for f in fb:
+        for k, c in enumerate(rest):
+            if c.eq(f):
+                rest.pop(k)
+                break
+        else:
+            return None
+    if not rest:
+        return z3.IntVal(1)
+    return z3.simplify(z3.Product(*rest)) if len(rest) > 1 else rest[0]
 
 
 def real_floor(z):
@@ -598,6 +627,15 @@ def spow(a, b):
         raise Unsupported('fractional power %s' % b)
     # symbolic exponent: uninterpreted pow with recurrence instances
     b = lift(b)
+    az = z3.simplify(a.z)
+    if isinstance(b, SInt) and z3.is_int_value(az) and az.as_long() >= 1:
+        # concrete integer base, integer exponent provably in [0, 64]: exact ite chain
+        if not ctx.feasible(z3.Or(b.z < 0, b.z > 64)):
+            base = az.as_long()
+            r = z3.IntVal(base ** 64)
+            for e in range(63, -1, -1):
+                r = z3.If(b.z == e, z3.IntVal(base ** e), r)
+            return SInt(r)
     return upow(a, b)
 
 
